@@ -9,6 +9,9 @@ CHECKS = {
  "C07": dict(design="§5 C07", engine="XH+ATN+z3",
              technique="CrossHair (z3) symbolic execution of _get_next_id / ZIDManager.get_next / is_zid; z3 LIA rank lemmas; z3 regex inclusion on the real lexer ATNs",
              note="stubs: in-memory FS, json identity shim; trusted: date.strftime, z3, CrossHair's models of str/dict; concurrency between processes outside the claim"),
+ "C09": dict(design="§4 C09", engine="XH",
+             technique="CrossHair (z3) symbolic execution of execute_with_session / _group_notes_by / _order_notes_by / _select against an independent rendering oracle",
+             note="stubs: repo returns the harness notes, query compilation and saved-query expansion replaced (C04/C15), clock; field domains finite (listed per spec)"),
 }
 NA = {
  "C13": "crash points between external effects (SQLite transactions, OS file writes) cannot be made symbolic: the effects are C-level/ORM internals; with them concrete a symbolic crash index is realised at the first effect, which is enumeration of faulted runs, a different technique (DESIGN.md §8)",
